@@ -999,7 +999,9 @@ class C15(Prop):
             elif same_hist and len(near_classes) == 1 and (len(near) == 1 or STRICT_FIRST_OF_RUN):
                 dt = float(unrat(drep["otsu_remove_nan"]))
                 model["threshold_exact_binning"] = dt
-                model_ok = model_ok and abs(dt - t) <= 16 * EPS * max(abs(lo), abs(hi))
+                # (absolute floor: with a subnormal bin width np.linspace's step is rounded to a multiple of 2^-1074, so an
+                # edge is off by up to 256 half-steps of the subnormal grid, which no relative bound covers)
+                model_ok = model_ok and abs(dt - t) <= 16 * EPS * max(abs(lo), abs(hi)) + 1024 * 5e-324
             if case["kind"] == "int256":
                 feats.add("values-on-bin-edges")
         feats |= bfeats
@@ -1067,6 +1069,12 @@ class C15(Prop):
             sane = False     # contradicts theorem np_bin_correct
         if not m["hist_is_by_edges"]:
             feats.add("numpy-bin-differs-from-edge-specification")
+        if not same and float(edges[-1]) - float(edges[0]) < BINS * 2.0 ** -1021:
+            # the bin width is a subnormal number: np.linspace leaves its ordinary path there (its `step == 0` /
+            # denormal handling), which the binning model does not follow.  NumPy's edges are the trusted input of every
+            # criterion check (they are what pewlib gets); the difference of the MODEL of np.histogram is recorded only
+            feats.add("binning-model-differs:subnormal-bin-width(recorded only)")
+            return True, feats, drep
         return same and sane, feats, drep
 
     def eval_outside(self, case, x, flat, clean, ctx):
